@@ -301,9 +301,25 @@ def whole(s):
             if msg:
                 fails.append({"witness_id": "whole-synthetic:%d" % j, "input": dict(kw, interpolator=it, T_MIN=tmin, DT=dt, NT=nt), "observed": msg, "expected": "every modulus finite and real"})
                 break
+    if not fails:
+        # minimal configurations: the user names the interpolation method and nothing else (the order comes from the packaged defaults), on the smallest data sets the
+        # package's own default order admits (5 volumes) -- every method of `interps`, every run
+        for j, it in enumerate(interps):
+            kw = dict(seed=s.seed + 30 + j, system=("cubic", "orthorhombic")[j % 2], na=1, nq=2, nv=5)
+            evals += 1
+            with calc_env.synthetic_case(settings={"elast": {"settings": {"mode_gamma": {"interpolator": it}}}}, omit=[("elast", "settings", "mode_gamma", "order")], **kw) as case:
+                try:
+                    msg = check_calculator(case.build())
+                except Exception as e:
+                    msg = "calculation does not complete: %r" % (e,)
+            if msg:
+                fails.append({"witness_id": "whole-minimal-config:%s" % it, "input": dict(kw, interpolator=it, order="not given (packaged default)"), "observed": msg,
+                              "expected": "every modulus finite and real"})
+                break
     s.bounded_standin("C12.whole_calculation(examples re-configured)", "%d of %d (example, interpolator, temperature grid) configurations incl. DT = 0.5 K and "
                       "T_MIN in {0, 0.5}; trigonal7 (c14, c15) and monoclinic (c15, c25, c35, c46) component sets; synthetic sets (q list off Gamma, crossing modes, three "
-                      "systems, DT down to 0.5 K, branches with gamma = 0 and 2e-6); seed %d" % (len(chosen), len(combos), s.seed),
+                      "systems, DT down to 0.5 K, branches with gamma = 0 and 2e-6); minimal configurations (method named, order left to the packaged defaults) for all five methods "
+                      "on 5-volume sets; seed %d" % (len(chosen), len(combos), s.seed),
                       evals, len(chosen), fails, ["calculator.Calculator"])
 
 
